@@ -303,7 +303,7 @@ theorem joined_reset_empty (E : Env) (c : JoinedCfg)
       simp [joinedValue, joinStr, hu]
 
 /-- **joined_reset** for the common configuration, every state including the empty one -/
-theorem joined_reset_single_char' (E : Env) (c : JoinedCfg) (s : JoinedState) (ch : Char)
+theorem joined_reset_single_char_all (E : Env) (c : JoinedCfg) (s : JoinedState) (ch : Char)
     (hsep : c.sep = [ch]) (hsp : c.sp = .static) (h : ∀ st ∈ s, ch ∉ st.u)
     (hprune : NoEmptyTextUnderPrune c s) (hset : Settled E c.member s)
     (hempty : c.prune = true ∨ ∃ r, setScalar E c.member (.str []) = .ok r ∧ r.st.u = []) :
